@@ -154,7 +154,16 @@ def setup_budget():
     others = max(v for k, v in pops.items() if k != 'hard')
     if not pops['hard'] > others + 1:
         raise boot.HarnessError(f'cannot place a step budget: {pops}')
-    return others + 1, pops
+    max_step = others + 1
+    # the design of the pool is validated on parsing.h directly (no glue involved): which sentences parse within the budget
+    for name, (tag, dep) in sentence_pool().items():
+        if name == 'long':
+            continue
+        out = nat.run(tag[None], dep[None], unary_penalty=0.5, use_beta=False, pruning_size=1, nbest=2, max_step=max_step)
+        want = 1 if name in ('vv', 'hard') else 0
+        if int(out['status'][0]) != want:
+            raise boot.HarnessError(f'sentence pool does not behave as designed on parse_sentence itself: {name} -> status {out["status"][0]}')
+    return max_step, pops
 
 
 _state_log = []
@@ -211,12 +220,20 @@ def explore_batches(shard):
     solo = {}
     for nm in pool:
         _state_log.clear()
-        r, _ = run_batch([nm], pool, max_step, 1, 20, [])
-        solo[nm] = canon_result(r[0])
+        try:
+            r, _ = run_batch([nm], pool, max_step, 1, 20, [])
+            solo[nm] = canon_result(r[0])
+        except Exception as e:
+            st.violation('batch/raised', f'a one-sentence batch ({nm}) raised {e!r}', engine='batch', batch=[nm], processes=1, max_chunk_size=20, schedule=[], max_step=max_step)
+            return st
     expect_failed = {'vv', 'long', 'hard'}
     for nm, r in solo.items():
         if (r == 'FAILED') != (nm in expect_failed):
-            raise boot.HarnessError(f'sentence pool does not behave as designed: {nm} -> {r}')
+            # parse_sentence itself behaves as designed (checked in setup_budget), so this is the code under test
+            why = {'vv': 'has no parse', 'long': 'is longer than max_length', 'hard': 'exhausts the step budget'}.get(nm, 'parses within max_length and the step budget')
+            st.violation(f'solo/{nm}', f'sentence {nm} {why} but parsed alone it yields {str(r)[:160]}', engine='batch', batch=[nm], processes=1, max_chunk_size=20, schedule=[], max_step=max_step)
+    if st.viol:
+        return st
     for names in shard['batches']:
         for processes in (1, 2, 3, 4):
             for mcs in (0, 1, 2, 20):
